@@ -512,6 +512,194 @@ def compare_render(pairs, res):
                                       'real': json.dumps(real, sort_keys=True)})
 
 
+# --------------------------------------------------------------------------
+# parse level: MarkupTemplate._parse / NewTextTemplate._parse vs their models
+
+KINDS = {}
+
+
+def _kinds(stream):
+    """the compiled template stream as nested kind names"""
+    from genshi.template.base import Template
+    from genshi.core import Stream
+    names = {Template.EXEC: 'X', Template.EXPR: 'E', Template.INCLUDE: 'I', Stream.TEXT: 'T', Stream.COMMENT: 'C',
+             Stream.PI: 'P'}
+    out = []
+    for kind, data, pos in stream:
+        if kind is Template.SUB:
+            ds, sub = data
+            name = getattr(ds[0], 'tagname', type(ds[0]).__name__) if ds else '?'
+            out.append(['S', name, _kinds(sub)])
+        elif kind in names:
+            out.append(names[kind])
+        else:
+            out.append(['O', _other(kind)])
+    return out
+
+
+def _other(kind):
+    order = ['START', 'END', 'START_NS', 'END_NS', 'DOCTYPE', 'XML_DECL', 'START_CDATA', 'END_CDATA']
+    return order.index(str(kind)) if str(kind) in order else 99
+
+
+def _interp_row(text):
+    from genshi.template.interpolation import interpolate
+    from genshi.template.base import TemplateSyntaxError
+    from genshi.core import Stream
+    try:
+        evs = list(interpolate(text))
+    except TemplateSyntaxError:
+        return [text, Atom('Err')]
+    return [text, [[Atom('T'), d] if k is Stream.TEXT else [Atom('E'), d.source] for k, d, _ in evs]]
+
+
+def _compiles(code):
+    from genshi.template.eval import Suite
+    try:
+        Suite(code)
+        return True
+    except SyntaxError:
+        return False
+
+
+def _real_parse(make):
+    from genshi.template.base import TemplateSyntaxError
+    try:
+        return ['ok', _kinds(make().stream)]
+    except TemplateSyntaxError as e:
+        if 'Python code blocks not allowed' in str(e):
+            return ['err', 'notAllowed']
+        if type(e).__name__ == 'BadDirectiveError':
+            return ['err', 'badDirective']
+        return ['err', 'syntax']
+
+
+def _model_parse(ans):
+    def conv(x):
+        if isinstance(x, list):
+            if str(x[0]) == 'S':
+                return ['S', x[1], [conv(y) for y in (x[2] if isinstance(x[2], list) else [x[2]])]]
+            if str(x[0]) == 'O':
+                return ['O', int(x[1])]
+        return str(x)
+    m = proto.dec(ans)
+    if str(m[0]) == 'ok':
+        body = m[1] if isinstance(m[1], list) else [m[1]]
+        return ['ok', [conv(y) for y in body]]
+    e = str(m[1])
+    return ['err', 'syntax' if e in ('badCode', 'badExpr') else e]
+
+
+def has_exec(kinds):
+    return any(k == 'X' or (isinstance(k, list) and k[0] == 'S' and has_exec(k[2])) for k in kinds)
+
+
+def compare_parse(rng, n, res):
+    """random markup documents and text-template segment lists: the parsers' models vs the real
+    parsers under both flags, and the parse-level property on the real code"""
+    from genshi.input import XMLParser
+    from genshi.core import Stream
+    from genshi.template import MarkupTemplate, NewTextTemplate, TemplateLoader
+    lines, meta = [], []
+    loader = TemplateLoader([os.path.join(SCRATCH, 'nowhere')], auto_reload=True)
+    for i in range(n):
+        p_code = rng.choice([0.0, 0.1, 0.25])
+        if i % 2 == 0:
+            src = G.random_markup_doc(rng, p_code)
+            evs, interp, good, ncode = [], [], [], 0
+            for kind, data, pos in XMLParser(io.StringIO(src)):
+                if kind is Stream.TEXT:
+                    evs.append([Atom('T'), data])
+                    interp.append(_interp_row(data))
+                elif kind is Stream.PI:
+                    evs.append([Atom('P'), data[0], data[1]])
+                    if data[0] == 'python':
+                        ncode += 1
+                        if _compiles(data[1]):
+                            good.append(data[1])
+                elif kind is Stream.COMMENT:
+                    evs.append([Atom('C'), data])
+                else:
+                    evs.append([Atom('O'), _other(kind)])
+            for flag in (True, False):
+                lines.append(proto.line(Atom('C14'), Atom('pmarkup'), B(flag), interp, good, evs))
+                meta.append(('markup', src, flag, ncode))
+        else:
+            segs = G.random_text_segs(rng, p_code)
+            src = G.text_source(segs)
+            interp, good, ncode = [], [], 0
+            wire = []
+            for sg in segs:
+                if sg[0] == 'T':
+                    wire.append([Atom('T'), sg[1]])
+                    interp.append(_interp_row(sg[1]))
+                elif sg[0] == 'C':
+                    wire.append([Atom('C')])
+                else:
+                    wire.append([Atom('D'), sg[1], sg[2]])
+                    if sg[1] == 'include':
+                        interp.append(_interp_row(sg[2]))
+                    if sg[1] == 'python':
+                        ncode += 1
+                        if _compiles(sg[2]):
+                            good.append(sg[2])
+            dirs = [d for d, _ in NewTextTemplate.directives]
+            for flag in (True, False):
+                lines.append(proto.line(Atom('C14'), Atom('ptext'), B(flag), interp, good, dirs, wire))
+                meta.append(('newtext', src, flag, ncode))
+    answers = proto.run_lines(lines)
+    reals = {}
+    for (syn, src, flag, ncode), ans in zip(meta, answers):
+        if syn == 'markup':
+            real = _real_parse(lambda: MarkupTemplate(src, allow_exec=flag, loader=loader))
+        else:
+            real = _real_parse(lambda: NewTextTemplate(src, allow_exec=flag, loader=loader))
+        reals[(syn, src, flag)] = real
+        res.evaluations += 1
+        res.streams['parse-' + syn] = res.streams.get('parse-' + syn, 0) + 1
+        res.count('parse:%s:%s' % (syn, real[0] if real[0] == 'ok' else real[1]))
+        try:
+            model = _model_parse(ans)
+        except Exception:  # noqa
+            model = ['bad-answer', ans[:200]]
+        case = {'parse': syn, 'src': src, 'flag': flag}
+        if ncode:
+            res.nontrivial.add(json.dumps(case, sort_keys=True))
+        if model != real:
+            res.disagreements.append({'stream': 'parse-' + syn, 'case': case, 'model': json.dumps(model)[:400],
+                                      'real': json.dumps(real)[:400]})
+        f = parse_oracle(case, real, ncode, reals)
+        if f:
+            res.failures.append(f)
+
+
+def parse_oracle(case, real, ncode, reals):
+    """the property at parse level, on what the real parser did"""
+    def bad(what, expected, observed):
+        return {'case': case, 'what': what, 'expected': expected, 'observed': observed}
+    if not case['flag']:
+        if real[0] == 'ok' and has_exec(real[1]):
+            return bad('a template parsed with allow_exec=False holds an EXEC event', 'no EXEC', real[1])
+        if ncode and real[0] == 'ok':
+            return bad('a template with a code block parsed with allow_exec=False', 'TemplateSyntaxError', 'ok')
+        on = reals.get((case['parse'], case['src'], True))
+        if not ncode and on is not None and on != real:
+            return bad('a source without code blocks parses differently when execution is allowed', on, real)
+    return None
+
+
+def replay_parse(case):
+    from genshi.template import MarkupTemplate, NewTextTemplate, TemplateLoader
+    loader = TemplateLoader([os.path.join(SCRATCH, 'nowhere')], auto_reload=True)
+    cls = MarkupTemplate if case['parse'] == 'markup' else NewTextTemplate
+    src = case['src']
+    ncode = len(re.findall(r'<\?python\s', src)) if case['parse'] == 'markup' else len(re.findall(r'\{%\s*python\b', src))
+    reals = {}
+    for flag in (True, False):
+        reals[(case['parse'], src, flag)] = _real_parse(lambda: cls(src, allow_exec=flag, loader=loader))
+    return parse_oracle(case, reals[(case['parse'], src, bool(case['flag']))], ncode, reals)
+
+
 def compare_parseopt(res):
     """option parsing of every probed spelling on each plugin class vs parseOpt"""
     from genshi.template.plugin import MarkupTemplateEnginePlugin, TextTemplateEnginePlugin, ConfigurationError
@@ -545,9 +733,9 @@ def key_of(case):
 
 
 def shard(arg):
-    seed, idx, nshards, nrandom = arg
+    seed, idx, nshards, nrandom, thorough = arg
     res = Result()
-    cases = [c for i, c in enumerate(G.enumerate_cases()) if i % nshards == idx]
+    cases = [c for i, c in enumerate(G.enumerate_cases(thorough)) if i % nshards == idx]
     rng = random.Random('%s/%s/C14' % (seed, idx))
     cases += [G.random_case(rng) for _ in range(nrandom)]
     os.makedirs(SCRATCH, exist_ok=True)
@@ -567,6 +755,7 @@ def shard(arg):
             res.failures.append(fail)
     compare_reach(pairs, res)
     compare_render(pairs, res)
+    compare_parse(rng, max(20, nrandom), res)
     if idx == 0:
         compare_parseopt(res)
     res.samples = cases[:2]
@@ -577,7 +766,7 @@ def run(ctx):
     nsh = 8
     res = Result()
     try:
-        for r in pmap('harness.props.c14', 'shard', [(ctx.seed, i, nsh, ctx.n(150, 3000)) for i in range(nsh)], procs=nsh):
+        for r in pmap('harness.props.c14', 'shard', [(ctx.seed, i, nsh, ctx.n(150, 3000), ctx.thorough) for i in range(nsh)], procs=nsh):
             res.merge(r)
     finally:
         shutil.rmtree(SCRATCH, ignore_errors=True)
@@ -598,7 +787,7 @@ def search(ctx, res, broken):
     if found:
         return found
     try:
-        for r in pmap('harness.props.c14', 'shard', [(ctx.seed + 1000, i, 8, 2000) for i in range(8)], procs=8):
+        for r in pmap('harness.props.c14', 'shard', [(ctx.seed + 1000, i, 8, 2000, False) for i in range(8)], procs=8):
             found.extend(r.failures)
     finally:
         shutil.rmtree(SCRATCH, ignore_errors=True)
@@ -664,6 +853,10 @@ def valid_case(case):
 
 
 def replay(ctx, case):
+    if isinstance(case, dict) and 'parse' in case:
+        if case.get('parse') not in ('markup', 'newtext') or not isinstance(case.get('src'), str):
+            return None
+        return replay_parse(case)
     if not valid_case(case):
         return None
     os.makedirs(SCRATCH, exist_ok=True)
